@@ -1,13 +1,16 @@
 package main
 
 import (
+	"crypto/sha256"
 	"fmt"
+	"sort"
 	"strings"
 
 	sdkmath "cosmossdk.io/math"
 	sdk "github.com/cosmos/cosmos-sdk/types"
 	authtypes "github.com/cosmos/cosmos-sdk/x/auth/types"
 
+	"github.com/osmosis-labs/osmosis/osmomath"
 	pmclient "github.com/osmosis-labs/osmosis/v31/x/poolmanager/client"
 	"github.com/osmosis-labs/osmosis/v31/x/poolmanager/client/queryproto"
 	pmtypes "github.com/osmosis-labs/osmosis/v31/x/poolmanager/types"
@@ -74,7 +77,10 @@ type Finding struct {
 	Detail    string
 }
 
-var hugeMax, _ = sdkmath.NewIntFromString("1000000000000000000000000000000")
+// "Limits wide open" for exact-out is the sender's whole balance of the input denom, not an
+// astronomically large number: a CosmWasm pool is handed the caller's maximum up front and returns the
+// excess (x/cosmwasmpool SwapExactAmountOut), so a maximum the sender does not own fails for lack of
+// funds - which is a refusal the statement allows, not a case of interest.
 
 // Stats are the per-shard counters of the probe evaluation.
 type Stats struct {
@@ -85,6 +91,7 @@ type Stats struct {
 	Extra       map[string]float64
 	Verbose     bool
 	Notes       map[string]string
+	SkimNotes   int
 }
 
 func newStats() *Stats {
@@ -160,7 +167,7 @@ func (w *World) compose(st *Stats, state, ctx sdk.Context, sender sdk.AccAddress
 			leg := Case{Kind: c.Kind, Route: l, Amounts: []string{c.Amounts[i]}}
 			lim := sdkmath.OneInt()
 			if c.Kind == "out" {
-				lim = hugeMax
+				lim = w.balOf(ctx, sender, l.Start()) // wide open, but affordable (see wideOut)
 			}
 			x, err := w.sendRouted(st, ctx, sender, leg, lim)
 			if err != nil {
@@ -201,7 +208,7 @@ func (w *World) compose(st *Stats, state, ctx sdk.Context, sender sdk.AccAddress
 		s, _ := state.CacheContext()
 		before := w.balOf(s, sender, h.In)
 		r := w.deliver(st, s, &pmtypes.MsgSwapExactAmountOut{Sender: sender.String(), Routes: []pmtypes.SwapAmountOutRoute{{PoolId: h.Pool, TokenInDenom: h.In}},
-			TokenOut: sdk.NewCoin(h.Out, need), TokenInMaxAmount: hugeMax})
+			TokenOut: sdk.NewCoin(h.Out, need), TokenInMaxAmount: before})
 		if !r.OK() {
 			return sdkmath.Int{}, strings.Join(log, " "), fmt.Errorf("pricing hop %d: %w", i, r.Err)
 		}
@@ -211,7 +218,7 @@ func (w *World) compose(st *Stats, state, ctx sdk.Context, sender sdk.AccAddress
 	var first sdkmath.Int
 	for i, h := range rt {
 		r := w.deliver(st, ctx, &pmtypes.MsgSwapExactAmountOut{Sender: sender.String(), Routes: []pmtypes.SwapAmountOutRoute{{PoolId: h.Pool, TokenInDenom: h.In}},
-			TokenOut: sdk.NewCoin(h.Out, req[i]), TokenInMaxAmount: hugeMax})
+			TokenOut: sdk.NewCoin(h.Out, req[i]), TokenInMaxAmount: w.balOf(ctx, sender, h.In)})
 		if !r.OK() {
 			return sdkmath.Int{}, strings.Join(log, " "), fmt.Errorf("hop %d: %w", i, r.Err)
 		}
@@ -346,9 +353,9 @@ func (w *World) diffAccounts(x, y sdk.Context, xn, yn string) string {
 		by := w.App.BankKeeper.GetAllBalances(y, na.Addr)
 		if !bx.Equal(by) {
 			var ds []string
-			for _, d := range denoms {
+			for _, d := range w.Denoms {
 				if !bx.AmountOf(d).Equal(by.AmountOf(d)) {
-					ds = append(ds, fmt.Sprintf("%s: %s=%s %s=%s (diff %s)", d, xn, bx.AmountOf(d), yn, by.AmountOf(d), bx.AmountOf(d).Sub(by.AmountOf(d))))
+					ds = append(ds, fmt.Sprintf("%s: %s=%s %s=%s (diff %s)", alias(d), xn, bx.AmountOf(d), yn, by.AmountOf(d), bx.AmountOf(d).Sub(by.AmountOf(d))))
 				}
 			}
 			out = append(out, na.Name+"{"+strings.Join(ds, "; ")+"}")
@@ -382,7 +389,7 @@ func (w *World) Evaluate(st *Stats, state sdk.Context, h0 [32]byte, senderName s
 	}
 	wide := sdkmath.OneInt()
 	if c.Kind == "out" {
-		wide = hugeMax
+		wide = w.balOf(state, sender, c.start())
 	}
 	collector := authtypes.NewModuleAddress(txfeestypes.TakerFeeCollectorName)
 
@@ -401,7 +408,12 @@ func (w *World) Evaluate(st *Stats, state sdk.Context, h0 [32]byte, senderName s
 		st.Vac["routed_rejected"]++
 		st.Rejected["probe:"+errClass(errR)]++
 		if errC == nil {
-			add(eq, "%s: routed message failed (%v) but the one-at-a-time composition succeeded with %s [%s]", desc, errR, amtC, logC)
+			// its own assertion id per refusal class, so that one cause cannot hide another behind the shrinker
+			as := "1.routed-rejected-composition-succeeds"
+			if c.split() {
+				as = "2.split-rejected-legs-succeed"
+			}
+			add(as+"["+strings.TrimPrefix(errClass(errR), "rejected:")+"]", "%s: routed message failed (%v) but the one-at-a-time composition succeeded with %s [%s]", desc, errR, amtC, logC)
 		}
 		if !c.split() {
 			Q, _ := state.CacheContext()
@@ -422,6 +434,13 @@ func (w *World) Evaluate(st *Stats, state sdk.Context, h0 [32]byte, senderName s
 	}
 	if c.split() {
 		st.Vac["split_routes_executed"]++
+		for _, l := range c.Legs {
+			for _, h := range l {
+				if w.pool(h.Pool).Type == "cosmwasm" {
+					st.Vac["split_routes_with_cosmwasm_leg_executed"]++
+				}
+			}
+		}
 	} else {
 		if len(c.Route) == 4 {
 			st.Vac["four_hop_routes_executed"]++
@@ -430,11 +449,33 @@ func (w *World) Evaluate(st *Stats, state sdk.Context, h0 [32]byte, senderName s
 			st.Vac["exact_out_multihop_executed"]++
 		}
 		types := map[string]bool{}
-		for _, h := range c.Route {
-			types[w.pool(h.Pool).Type] = true
+		for i, h := range c.Route {
+			pi := w.pool(h.Pool)
+			types[pi.Type] = true
+			if pi.Type == "cosmwasm" {
+				st.Vac["cosmwasm_hops_executed"]++
+				if len(c.Route) > 1 {
+					st.Vac["cosmwasm_hops_in_multihop_executed"]++
+					if c.Kind == "out" && i == 0 {
+						st.Vac["cosmwasm_first_hop_exact_out_multihop_executed"]++
+					}
+					if c.Kind == "out" && i > 0 {
+						st.Vac["cosmwasm_later_hop_exact_out_multihop_executed"]++
+					}
+				}
+			}
+			if len(pi.Denoms) > 2 {
+				st.Vac[fmt.Sprintf("multi_asset_hop_%d_%s_%s_executed", h.Pool, alias(h.In), alias(h.Out))]++
+				if len(c.Route) > 1 {
+					st.Vac["multi_asset_hops_in_multihop_executed"]++
+				}
+			}
 		}
-		if len(types) == 3 {
+		if len(types) >= 3 {
 			st.Vac["routes_mixing_three_pool_types_executed"]++
+		}
+		if len(types) == 4 {
+			st.Vac["routes_mixing_four_pool_types_executed"]++
 		}
 	}
 	feeCharged := !a.BankKeeper.GetAllBalances(R, collector).Equal(colBefore)
@@ -494,6 +535,11 @@ func (w *World) Evaluate(st *Stats, state sdk.Context, h0 [32]byte, senderName s
 				st.Extra["sum_full_state_equal"]++
 			}
 		}
+	}
+
+	// ---- oracle 1s / 2s: the taker-fee share accrual of the routed message ---------------------------
+	if len(w.Agreements) > 0 {
+		w.checkSkim(st, add, desc, o1, state, R, C, errC == nil, c, a.BankKeeper.GetAllBalances(R, collector).Sub(colBefore...))
 	}
 
 	// ---- oracle 3: estimate == execution, estimate leaves the state untouched ----------------------
@@ -589,4 +635,236 @@ func (w *World) Evaluate(st *Stats, state sdk.Context, h0 [32]byte, senderName s
 		}
 	}
 	return fs
+}
+
+// ---------------------------------------------------------------------------------------------
+// Taker-fee share agreements ("skim"). A routed swap does not move the skimmed coins: it adds them to
+// an accumulator in the poolmanager store (share-agreement denom x fee denom), which the txfees epoch
+// hook later pays out of the taker-fee collector to the agreement's skim address. The bank store is
+// therefore compared as before; on top of it
+//
+//	split routes:  the accumulators after the routed message == after the legs sent one after another
+//	single routes: the accumulators grew by exactly what the documented rule gives for the taker fees
+//	               the message charged (collector's balance increase, per denom): every agreement whose
+//	               denom occurs anywhere in the route - or, when there is none, the scaled agreements of
+//	               every registered alloyed asset in the route - takes trunc(fee x percent) of every fee coin
+//	settlement:    after the txfees epoch hook on the routed branch every skim address holds exactly what
+//	               had accrued for it and the accumulators are empty
+//
+// The one-hop-at-a-time composition skims each hop's fee only for the agreements of that hop's own two
+// denoms; the routed message skims every hop's fee for every agreement of the route. The two differ by
+// design (the agreement text: "any trade route that includes the denom"), so their (dis)agreement is
+// counted, not asserted: sum_skim_routed_equals_per_hop / sum_skim_routed_differs_from_per_hop.
+// ---------------------------------------------------------------------------------------------
+
+// accrued reads every accumulator: share-agreement denom -> skimmed coins (zero entries dropped).
+func (w *World) accrued(ctx sdk.Context) map[string]sdk.Coins {
+	accs, err := w.App.PoolManagerKeeper.GetAllTakerFeeShareAccumulators(ctx)
+	if err != nil {
+		panic(err)
+	}
+	out := map[string]sdk.Coins{}
+	for _, a := range accs {
+		cs := sdk.NewCoins()
+		for _, c := range a.SkimmedTakerFees {
+			if c.Amount.IsPositive() {
+				cs = cs.Add(c)
+			}
+		}
+		if !cs.IsZero() {
+			out[a.Denom] = cs
+		}
+	}
+	return out
+}
+
+func accruedString(m map[string]sdk.Coins) string {
+	ks := make([]string, 0, len(m))
+	for k := range m {
+		ks = append(ks, k)
+	}
+	sort.Strings(ks)
+	var s []string
+	for _, k := range ks {
+		var cs []string
+		for _, c := range m[k] {
+			cs = append(cs, c.Amount.String()+alias(c.Denom))
+		}
+		s = append(s, alias(k)+":"+strings.Join(cs, ","))
+	}
+	if len(s) == 0 {
+		return "{}"
+	}
+	return "{" + strings.Join(s, " ") + "}"
+}
+
+func coinsString(cs sdk.Coins) string {
+	var s []string
+	for _, c := range cs {
+		s = append(s, c.Amount.String()+alias(c.Denom))
+	}
+	return strings.Join(s, ",")
+}
+
+func accruedEqual(x, y map[string]sdk.Coins) bool { return accruedString(x) == accruedString(y) }
+
+// expectedSkim is the documented rule applied to the fees of one routed message.
+func (w *World) expectedSkim(before map[string]sdk.Coins, rt Route, fees sdk.Coins) (map[string]sdk.Coins, bool) {
+	in := map[string]bool{rt.Start(): true}
+	for _, h := range rt {
+		in[h.Out] = true
+	}
+	var ags []Agreement
+	for _, ag := range w.agreementList() {
+		if in[ag.Denom] {
+			ags = append(ags, ag)
+		}
+	}
+	if len(ags) == 0 {
+		var al []string
+		for d := range w.Alloyed {
+			if in[d] {
+				al = append(al, d)
+			}
+		}
+		sort.Strings(al)
+		for _, d := range al {
+			ags = append(ags, w.Alloyed[d]...)
+		}
+	}
+	out := map[string]sdk.Coins{}
+	for k, v := range before {
+		out[k] = v
+	}
+	total := osmomath.ZeroDec()
+	for _, ag := range ags {
+		total = total.Add(ag.Pct)
+	}
+	if total.GT(osmomath.OneDec()) {
+		return out, false // the message must have been refused
+	}
+	for _, f := range fees {
+		for _, ag := range ags {
+			amt := osmomath.NewDecFromInt(f.Amount).Mul(ag.Pct).TruncateInt()
+			if amt.IsPositive() {
+				out[ag.Denom] = out[ag.Denom].Add(sdk.NewCoin(f.Denom, amt))
+			}
+		}
+	}
+	return out, true
+}
+
+func (w *World) checkSkim(st *Stats, add func(as, format string, args ...interface{}), desc, o1 string, state, R, C sdk.Context, haveC bool, c Case, fees sdk.Coins) {
+	a := w.App
+	accR := w.accrued(R)
+	if c.split() {
+		if haveC {
+			if accC := w.accrued(C); !accruedEqual(accR, accC) {
+				add("2.skim-accrual-equals-sum-of-legs", "%s: taker-fee share accumulators after the split message %s, after the legs one after another %s", desc, accruedString(accR), accruedString(accC))
+			} else {
+				st.Vac["skim_accruals_compared"]++
+			}
+		}
+	} else {
+		acc0 := w.accrued(state)
+		want, ok := w.expectedSkim(acc0, c.Route, fees)
+		if !ok {
+			add("1.skim-accrual-equals-route-rule", "%s: the share percentages of the route exceed 1 but the message succeeded", desc)
+		} else if !accruedEqual(accR, want) {
+			add("1.skim-accrual-equals-route-rule", "%s: taker fees charged %s; accumulators before %s, after the routed message %s, by the rule of the agreements %s", desc, coinsString(fees), accruedString(acc0), accruedString(accR), accruedString(want))
+		} else {
+			st.Vac["skim_accruals_compared"]++
+			if !accruedEqual(accR, acc0) {
+				st.Vac["skim_accrued_by_routed_swap"]++
+				if len(c.Route) > 1 {
+					st.Vac["skim_accrued_by_multihop_swap"]++
+				}
+				for d := range w.Alloyed {
+					if c.Route.Start() == d || c.Route.End() == d {
+						st.Vac["skim_accrued_through_alloyed_asset"]++
+					}
+				}
+			}
+		}
+		if haveC {
+			if accC := w.accrued(C); accruedEqual(accR, accC) {
+				st.Extra["sum_skim_routed_equals_per_hop"]++
+			} else {
+				st.Extra["sum_skim_routed_differs_from_per_hop"]++
+				if st.SkimNotes < 3 && c.Tag == "1000000" {
+					st.SkimNotes++
+					st.Notes["skim: "+desc] = fmt.Sprintf("routed %s, one hop at a time %s", accruedString(accR), accruedString(accC))
+				}
+			}
+		}
+	}
+	// settlement on a scratch branch of the routed branch
+	if len(accR) == 0 {
+		return
+	}
+	S, _ := R.CacheContext()
+	before := map[string]sdk.Coins{}
+	for _, ag := range w.agreementList() {
+		before[ag.Denom] = a.BankKeeper.GetAllBalances(S, ag.Addr)
+	}
+	st.Transitions++
+	if err := core.Try(func() error { return a.TxFeesKeeper.AfterEpochEnd(S, "day", 1) }); err != nil {
+		add(o1+".skim-settlement", "%s: the txfees epoch hook failed after the routed message: %v", desc, err)
+		return
+	}
+	for _, ag := range w.agreementList() {
+		got := a.BankKeeper.GetAllBalances(S, ag.Addr).Sub(before[ag.Denom]...)
+		if !got.Equal(accR[ag.Denom]) {
+			add(o1+".skim-settlement", "%s: accrued for %s before the epoch hook %s, skim address %s received {%s}", desc, ag.Denom, accruedString(map[string]sdk.Coins{ag.Denom: accR[ag.Denom]}), ag.Name, coinsString(got))
+			return
+		}
+	}
+	if left := w.accrued(S); len(left) != 0 {
+		add(o1+".skim-settlement", "%s: accumulators left after the epoch hook: %s", desc, accruedString(left))
+		return
+	}
+	st.Vac["skim_settlements_checked"]++
+}
+
+// cosmwasmProbe executes every 1- and 2-hop route through a CosmWasm pool of the world "alloy" (both
+// contracts) in the initial state, exact-in and exact-out of 1000000, and digests the response amounts
+// (or refusal classes) and the hash of all stores after each. Every shard is a separate process with its
+// own wasm VM and module cache: bin/run demands the same digest from all of them (extra key eq_...).
+// Repeatability inside one process is what oracle 4 (L1 re-executes every routed message on a sibling
+// branch) and oracle 1 already assert for every case.
+func cosmwasmProbe(st *Stats) string {
+	lt := latticeFor(FeeAlloy)
+	w := lt.w
+	h := sha256.New()
+	n := 0
+	for _, rt := range lt.routes {
+		if len(rt) > 2 {
+			continue
+		}
+		cw := false
+		for _, hp := range rt {
+			cw = cw || w.pool(hp.Pool).Type == "cosmwasm"
+		}
+		if !cw {
+			continue
+		}
+		for _, kind := range []string{"in", "out"} {
+			c := Case{Kind: kind, Route: rt, Amounts: []string{"1000000"}, Tag: "1000000"}
+			b, _ := lt.init.CacheContext()
+			lim := sdkmath.OneInt()
+			if kind == "out" {
+				lim = w.balOf(b, core.Acc("T"), c.start())
+			}
+			amt, err := w.sendRouted(st, b, core.Acc("T"), c, lim)
+			sh := core.StateHash(w.App, b, nil)
+			res := errClass(err)
+			if err == nil {
+				res = amt.String()
+			}
+			fmt.Fprintf(h, "%s|%s|%s|%x\n", rt.String(), kind, res, sh)
+			n++
+		}
+	}
+	st.Vac["cosmwasm_determinism_probe_cases"] += int64(n)
+	return fmt.Sprintf("%d cases %x", n, h.Sum(nil)[:12])
 }
